@@ -40,8 +40,10 @@ def gen_spec(rng, fmt):
     leap = (year % 4 == 0 and (year % 100 != 0 or year % 400 == 0))
     jday = rng.choice([1, 31, 59, 60, 154, 365, 366 if leap else 365, rng.randrange(1, 366)])
     hour = rng.choice([0, 1, 11, 12, 21, 22, 23, rng.randrange(24)])
-    if year == 2069 and jday >= 360:
-        jday = 300                        # the two-digit-year window ends with 2069
+    if year == 2069 and jday >= 340:
+        # the two-digit-year window ends with 2069: no begin or END flag may fall into
+        # 2070 (up to 4 steps of 72 h = 12 days plus the rounding of the last period)
+        jday = 300
     spec = {'fmt': fmt, 'nx': rng.randrange(1, 6), 'ny': rng.randrange(1, 6),
             'nz': rng.randrange(1, 4), 'nt': rng.randrange(1, 5),
             'sdate': year * 1000 + jday, 'stime': float(hour),
